@@ -149,7 +149,7 @@ PROPS = {
         "explanation": "theorems relating block_with / partial_call to inline evaluation on the model + generated partial / layout / contentFor / block-helper uses compared with a second, inline run of the real engine",
     },
     "C15": {
-        "level": "proof", "cone": ["model/Lexer.v", "model/Parser.v", "model/Eval.v", "proofs/LexerProofs.v", "proofs/LexerEquiv.v", "proofs/EvalProofs.v", "props/C15.v"],
+        "level": "proof", "cone": ["model/Lexer.v", "model/Parser.v", "model/Eval.v", "proofs/LexerProofs.v", "proofs/LexerEquiv.v", "proofs/EvalProofs.v", "proofs/StmtProofs.v", "props/C15.v"],
         "trusted_base": COMMON_TB + ["the line counter of model/Lexer.v (readChar and the stamping points), the parser's error lines and exec_prog's 'line N:' wrapping transcribe the code; error message text beyond the line prefix is not modelled (compared only between the shifted and unshifted runs of the real engine)"],
         "assumptions": ["'the line on which the tag containing the failing statement begins' is read as the line of the first token of the failing statement's tag"],
         "explanation": "lexer line-counting and shift theorems on the model + generated multi-line templates with one failing statement, with a placement oracle and a shift oracle",
